@@ -223,7 +223,12 @@ local function _lua_set_functions(py_funcs_table)
     -- must be safe to call from hostile code.
     mw = require("mw")
     for func_name, py_func in pairs(py_funcs_table) do
-        _G[func_name] = py_func
+        -- Modules get a Lua closure, never the Python object itself: the
+        -- attributes of a Python callable (functools.partial .args/.func)
+        -- lead straight to the processing context.
+        _G[func_name] = function(...)
+            return py_func(...)
+        end
     end
     -- This is set in https://github.com/wikimedia/mediawiki-extensions-Scribunto/blob/4aa17cb80c72998b9cead27e5be1ca39d8a0cfed/includes/Engines/LuaCommon/lualib/mw.language.lua#L27-L28
     -- and used in https://en.wiktionary.org/wiki/Module:languages
